@@ -185,6 +185,12 @@ def spec(case, mos, io):
                 fails.append("step %d (%s %s): contracts of the earlier class %d changed from %s to %s"
                              % (i, op["op"], op["k"] or op["f"], k, before[k], c))
         prev = cur
+    # behavioural channel: the verdicts of real calls on every class (judged against its own introspected lists)
+    from props import C18 as _C18
+    for mm in io.get("verdict_mismatches", []):
+        if not _C18.late_invariant_mismatch(case, mm):
+            fails.append("class %s member %s with contract %s false: the class's own contracts say %s, the real call %s - "
+                         "another class's definition or use changed its verdict" % (mm["class"], mm["member"], mm["false"], mm["by_hand"], mm["real"]))
     return fails
 
 
